@@ -25,6 +25,26 @@ TEXTS = ["", "A", "a", "B", "AA", "0", "ß", "DE89370400440532013000", "DE89 370
          "GENODEM1GL", "DE89370400440532013", "DE89370400440532013000\n", " DE89370400440532013000",
          "GENODEM1GLS ", "nwbk60161331926819"]
 COMPS = reg.COMPONENTS
+# texts with a non-ASCII character, and every ASCII / normalised / escaped re-spelling of them (as
+# plain strings): an object holding the former must not compare equal to any of the latter
+NONASCII = ["É", "DE89É70400440532013000", "GENODEÉ1", "٣70400440532013000"]
+
+
+def respellings(t: str) -> list[str]:
+    import unicodedata
+    import urllib.parse
+    out = []
+    for handler in ("backslashreplace", "xmlcharrefreplace", "namereplace", "ignore", "replace"):
+        out.append(t.encode("ascii", handler).decode("ascii"))
+    out += [t.encode("unicode_escape").decode("ascii"), ascii(t), repr(t), t.casefold(), t.lower(),
+            urllib.parse.quote(t), t.encode("utf-8").decode("latin-1"), t.encode("utf-7").decode("ascii")]
+    out += [unicodedata.normalize(f, t) for f in ("NFC", "NFD", "NFKC", "NFKD")]
+    out += [o.upper() for o in out]
+    return [o for o in dict.fromkeys(out) if o != t]
+
+
+# purely numeric BBANs of different lengths, where numeric order and string order disagree
+NUMERIC_BBANS = ["9", "10", "2", "09", "100", "0370400440532013000", "37040044053201300", "999999999999999999"]
 
 
 def build_values():
@@ -34,6 +54,23 @@ def build_values():
         vals.append((f"str:{t!r}", (lambda t=t: t)))
         vals.append((f"IBAN*:{t!r}", (lambda t=t: lib.IBAN(t, allow_invalid=True))))
         vals.append((f"BIC*:{t!r}", (lambda t=t: lib.BIC(t, allow_invalid=True))))
+    for t in NONASCII:
+        vals.append((f"str:{t!r}", (lambda t=t: t)))
+        vals.append((f"IBAN*:{t!r}", (lambda t=t: lib.IBAN(t, allow_invalid=True))))
+        vals.append((f"BIC*:{t!r}", (lambda t=t: lib.BIC(t, allow_invalid=True))))
+        vals.append((f"BBAN:DE:{t!r}", (lambda t=t: lib.BBAN("DE", t))))
+        for r in respellings(t):
+            vals.append((f"str:{r!r}", (lambda r=r: r)))
+    for t in NUMERIC_BBANS:
+        for cc in ("DE", "GB"):
+            vals.append((f"BBAN:{cc}:{t!r}", (lambda t=t, cc=cc: lib.BBAN(cc, t))))
+        vals.append((f"str:{t!r}", (lambda t=t: t)))
+    seen_d, uniq = set(), []
+    for d, f in vals:
+        if d not in seen_d:
+            seen_d.add(d)
+            uniq.append((d, f))
+    vals = uniq
     for t in ["", "A", "370400440532013000", "NWBK60161331926819", "3704 0044 0532 0130 00",
               "nwbk60161331926819", "nwbk 6016 1331 9268 19"]:
         for cc in ("DE", "GB"):
